@@ -7,14 +7,17 @@
    test run on the first k draws of s reports an overall p-value or a history entry <= alpha.  The theorems bound the
    FRACTION of the N! orderings on which that happens by alpha, for every alpha in (0,1), every N, every population.
 
-   What is proved at full strength: ALPHA with every shipped estimator (and indeed any estimator, because alpha_mart
-   truncates eta_j to [mu_j,u]); betting with the fixed bet (lambda <= 1/u) and aGRAPA; the generalised SPRT;
-   all for finite N.  `C01_prob_*` give the same bound for the sequential-draw probability `pcross`, and
-   `C01_count_is_probability` shows the two coincide.
-   NOT proved here (see DESIGN.md and the evidence): Kaplan-Kolmogorov (finite N), and the N = infinity (IID) case for
-   ALPHA, betting, Kaplan-Markov, Kaplan-Wald and the SPRT; those rest on the correspondence plus the exact
-   enumeration oracles of harness/c01.py.  *)
-From SV Require Import NNM NNM_ranges NNM_wf Prob NNM_risk NNM_risk_inst.
+   Proved at full strength for finite N (sampling without replacement): ALPHA with every shipped estimator (and indeed
+   any estimator, because alpha_mart truncates eta_j to [mu_j,u]); betting with the fixed bet (lambda <= 1/u) and
+   aGRAPA; the generalised SPRT; Kaplan-Kolmogorov (any nonnegative population).  `C01_ville` is the inequality used and
+   `C01_count_is_probability` shows that the count over orderings is the sequential-draw probability.
+   For N = infinity (independent draws) the theorems are PARTIAL (`..._iid_partial`): every law with FINITE SUPPORT and
+   rational masses on [0,u] with mean <= t, every horizon n: the total mass of the length-n sequences on which some
+   prefix is rejected is <= alpha — ALPHA, betting, SPRT (both random_order settings), Kaplan-Markov, Kaplan-Wald.
+   Missing for the full IID clause: arbitrary (continuous) laws; each one-step factor is affine in the observation so
+   only the mean of the law enters, but the limit argument is not formalised (no measure theory in this development). *)
+From SV Require Import NNM NNM_ranges NNM_wf Prob Prob_iid NNM_risk NNM_risk_inst NNM_risk_iid NNM_risk_iid_inst
+     NNM_risk_iid_kaplan NNM_risk_kk.
 Open Scope Q_scope.
 
 Theorem C01_alpha_wor : forall sqrtq e t u pop alpha,
@@ -40,6 +43,71 @@ Theorem C01_sprt_wor : forall sqrtq eta t u pop alpha,
   / qn (ffact (length pop) (length pop)) <= alpha.
 Proof. exact sprt_risk_limit. Qed.
 Print Assumptions C01_sprt_wor.
+
+Theorem C01_kaplan_kolmogorov_wor : forall g ro t pop alpha,
+  0 <= g -> null_pop_nn t pop -> 0 < alpha -> alpha < 1 ->
+  let N := Z.of_nat (length pop) in
+  qn (length (filter (rejectsb (kaplan_kolmogorov g ro N t) alpha) (orderings (length pop) pop)))
+  / qn (ffact (length pop) (length pop)) <= alpha.
+Proof. exact kaplan_kolmogorov_risk_limit. Qed.
+Print Assumptions C01_kaplan_kolmogorov_wor.
+
+(* ---- N = infinity, finite-support laws (partial: see the header) ---- *)
+Theorem C01_alpha_iid_partial : forall sqrtq e t u law alpha n,
+  0 < u -> 0 < t < u -> null_law u t law -> 0 < alpha -> alpha < 1 ->
+  lsum (map (fun s => weight s * ind (rejectsb (alpha_mart sqrtq e None t u) alpha (values s))) (seqs law n)) <= alpha.
+Proof. exact alpha_iid_risk_limit. Qed.
+Print Assumptions C01_alpha_iid_partial.
+
+Theorem C01_betting_iid_partial : forall sqrtq, (forall x, 0 <= sqrtq x) -> forall b t u law alpha n,
+  0 < u -> 0 < t < u -> bet_ok b u -> null_law u t law -> 0 < alpha -> alpha < 1 ->
+  lsum (map (fun s => weight s * ind (rejectsb (betting_mart sqrtq b None t u) alpha (values s))) (seqs law n)) <= alpha.
+Proof. exact betting_iid_risk_limit. Qed.
+Print Assumptions C01_betting_iid_partial.
+
+Theorem C01_sprt_iid_partial : forall sqrtq eta ro t u law alpha n,
+  0 < u -> 0 < t < u -> null_law u t law -> 0 < alpha -> alpha < 1 ->
+  lsum (map (fun s => weight s * ind (rejectsb (wald_sprt sqrtq eta ro None t u) alpha (values s))) (seqs law n)) <= alpha.
+Proof. exact sprt_iid_risk_limit. Qed.
+Print Assumptions C01_sprt_iid_partial.
+
+Theorem C01_kaplan_markov_iid_partial : forall g ro t u law alpha n,
+  0 < t -> 0 <= g -> null_law u t law -> 0 < alpha -> alpha < 1 ->
+  lsum (map (fun s => weight s * ind (rejectsb (kaplan_markov g ro t) alpha (values s))) (seqs law n)) <= alpha.
+Proof. exact kaplan_markov_iid_risk_limit. Qed.
+Print Assumptions C01_kaplan_markov_iid_partial.
+
+Theorem C01_kaplan_wald_iid_partial : forall g ro t u law alpha n,
+  0 < t -> 0 <= g <= 1 -> null_law u t law -> 0 < alpha -> alpha < 1 ->
+  lsum (map (fun s => weight s * ind (rejectsb (kaplan_wald g ro t) alpha (values s))) (seqs law n)) <= alpha.
+Proof. exact kaplan_wald_iid_risk_limit. Qed.
+Print Assumptions C01_kaplan_wald_iid_partial.
+
+(* the weighted sum over sequences is the sequential-draw probability, and Ville's inequality for independent draws *)
+Theorem C01_iid_sum_is_probability : forall (T : list Q -> Q) (thr : Q) (law : list (Q * Q)),
+  lsum (map snd law) == 1 -> forall n p,
+  pcross_iid T thr law n p == lsum (map (fun s => weight s * ind (crosses T thr p (values s))) (seqs law n)).
+Proof. exact pcross_iid_sum. Qed.
+Print Assumptions C01_iid_sum_is_probability.
+
+Theorem C01_ville_iid : forall (T : list Q -> Q) (thr : Q) (law : list (Q * Q)),
+  (forall vw, In vw law -> 0 <= snd vw) -> forall Inv : list Q -> Prop,
+  (forall p vw, Inv p -> In vw law -> Inv (p ++ [fst vw])) ->
+  (forall p, Inv p -> 0 <= T p) ->
+  (forall p, Inv p -> lsum (map (fun vw => snd vw * T (p ++ [fst vw])) law) <= T p) ->
+  forall n p, Inv p -> pcross_iid T thr law n p * thr <= T p.
+Proof. exact ville_iid. Qed.
+Print Assumptions C01_ville_iid.
+
+Example C01_iid_nonvacuous :
+  null_law 1 (1#2) [(0, 1#2); (1, 1#4); (1#2, 1#4)]
+  /\ Qred (lsum (map (fun s => weight s * ind (rejectsb (kaplan_wald 0 true (1#2)) (1#2) (values s)))
+                     (seqs [(0, 1#2); (1, 1#4); (1#2, 1#4)] 3))) = (21 # 64).
+Proof.
+  split; [|vm_compute; reflexivity].
+  split; [|split; [reflexivity| unfold Qle; simpl; lia]].
+  intros vw [E|[E|[E|[]]]]; subst; simpl; split; try split; unfold Qle; simpl; lia.
+Qed.
 
 (* the finite-horizon Ville inequality used above, for any nonnegative supermartingale over draws without replacement *)
 Theorem C01_ville : forall (T : list Q -> Q) (thr : Q) (Inv : list Q -> list Q -> Prop),
